@@ -7,6 +7,8 @@ import (
 	"io"
 	"os/exec"
 	"path/filepath"
+	"regexp"
+	"strconv"
 	"strings"
 
 	"github.com/go-openapi/spec"
@@ -65,6 +67,8 @@ func c19RunCase(c *Ctx, raw []byte) string {
 	return c19Exec(c, cs)
 }
 
+var c19LeadingZeroCode = regexp.MustCompile(`"0[0-9][0-9]":\{`)
+
 func c19Exec(c *Ctx, cs c19Case) (outcome string) {
 	defer c.guardCase("schema-validity", cs, &outcome)
 	ok, _ := c19V.valid(cs.Doc)
@@ -83,8 +87,11 @@ func c19Exec(c *Ctx, cs c19Case) (outcome string) {
 		if strings.Contains(string(cs.Doc), `"$ref":"urn:`) || strings.Contains(string(cs.Doc), `"$ref":"mailto:`) {
 			opaque = "true"
 		}
+		doc := string(cs.Doc)
+		emptyReq := strconv.FormatBool(strings.Contains(doc, `"title":""`) || strings.Contains(doc, `"version":""`) || strings.Contains(doc, `"name":""`))
+		lzCode := strconv.FormatBool(c19LeadingZeroCode.MatchString(doc))
 		c.Violate(Violation{Oracle: "validity", Class: class, Detail: detail, Observed: tail(string(out), 400),
-			Features: map[string]string{"symptom": class, "sigx": sym, "opaque_ref": opaque}, Case: cs})
+			Features: map[string]string{"symptom": class, "sigx": sym, "opaque_ref": opaque, "empty_required_string": emptyReq, "leading_zero_code": lzCode}, Case: cs})
 	}
 	outcome = "valid:round-trip-ok"
 	var sw spec.Swagger
@@ -101,11 +108,14 @@ func c19Exec(c *Ctx, cs c19Case) (outcome string) {
 		viol("re-encoding-invalid", why, enc)
 		outcome = "re-encoding-invalid"
 	}
-	// expansion (in-document references only: no loader needed)
+	// expansion (in-document references, and references into the one external document the loader serves)
 	var sw2 spec.Swagger
 	json.Unmarshal(cs.Doc, &sw2)
 	err = spec.ExpandSpec(&sw2, &spec.ExpandOptions{RelativeBase: "file:///r/s/root.json", PathLoader: func(p string) (json.RawMessage, error) {
-		return nil, fmt.Errorf("no external documents in this check: %s", p)
+		if p == "file:///r/s/ext.json" {
+			return json.RawMessage(`{"definitions":` + c19Defs + `,"parameters":` + c19Params + `,"responses":` + c19Resps + `}`), nil
+		}
+		return nil, fmt.Errorf("no such external document in this check: %s", p)
 	}})
 	if err != nil {
 		return outcome + "+expansion-error"
@@ -201,6 +211,21 @@ func c19Run(c *Ctx) {
 		`{"swagger":"2.0","info":{"title":"t","version":"1"},"paths":{"/p":{"get":{"responses":{"600":{"description":"d"},"799":{"description":"e"},"x-a":1}}}}}`,
 		`{"swagger":"2.0","info":{"title":"t","version":"1"},"paths":{},"responses":{"r2":{"$ref":"#/responses/a"}},"parameters":{"p2":{"$ref":"#/parameters/a"}}}`,
 	}
+	// references into one external document, spelled relative and as the canonical absolute URL
+	for _, pre := range []string{"ext.json", "file:///r/s/ext.json", "./ext.json"} {
+		extras = append(extras,
+			`{"swagger":"2.0","info":{"title":"t","version":"1"},"paths":{"/p":{"parameters":[{"$ref":"`+pre+`#/parameters/a"}],"get":{"parameters":[{"$ref":"`+pre+`#/parameters/b"}],"responses":{"200":{"$ref":"`+pre+`#/responses/a"},"default":{"description":"","schema":{"$ref":"`+pre+`#/definitions/a~1b"}}}}}}}`,
+			`{"swagger":"2.0","info":{"title":"t","version":"1"},"paths":{},"responses":{"r2":{"$ref":"`+pre+`#/responses/a"}},"parameters":{"p2":{"$ref":"`+pre+`#/parameters/a"},"p3":{"$ref":"`+pre+`#/parameters/b"}},"definitions":{"d2":{"$ref":"`+pre+`#/definitions/a"}}}`)
+	}
+	// optional members present but empty, false or zero (what the encoder is free to drop must not be required)
+	for _, flow := range []string{`"flow":"implicit","authorizationUrl":"http://a"`, `"flow":"password","tokenUrl":"http://t"`, `"flow":"application","tokenUrl":"http://t"`, `"flow":"accessCode","authorizationUrl":"http://a","tokenUrl":"http://t"`} {
+		extras = append(extras, `{"swagger":"2.0","info":{"title":"t","version":"1"},"paths":{},"securityDefinitions":{"o":{"type":"oauth2",`+flow+`,"scopes":{}}}}`)
+	}
+	extras = append(extras,
+		`{"swagger":"2.0","info":{"title":"t","version":"1","description":"","termsOfService":"","contact":{},"license":{"name":"n","url":""}},"basePath":"/","schemes":[],"consumes":[],"produces":[],"paths":{},"definitions":{},"parameters":{},"responses":{},"securityDefinitions":{},"security":[],"tags":[]}`,
+		`{"swagger":"2.0","info":{"title":"t","version":"1"},"paths":{"/p":{"parameters":[],"get":{"tags":[],"summary":"","description":"","operationId":"","consumes":[],"produces":[],"parameters":[],"schemes":[],"deprecated":false,"security":[],"responses":{"200":{"description":"","headers":{},"examples":{}}}}}}}`,
+		`{"swagger":"2.0","info":{"title":"t","version":"1"},"paths":{"/p":{"get":{"parameters":[{"name":"q","in":"query","type":"string","required":false,"description":"","allowEmptyValue":false,"uniqueItems":false,"exclusiveMaximum":false,"exclusiveMinimum":false,"enum":[1],"maximum":0,"minLength":0}],"responses":{"default":{"description":""}}}}},"tags":[{"name":"n","description":""}]}`,
+		`{"swagger":"2.0","info":{"title":"t","version":"1"},"paths":{},"definitions":{"e":{"title":"","description":"","required":["a"],"properties":{},"readOnly":false,"uniqueItems":false,"exclusiveMaximum":false,"minimum":0,"maxLength":0,"minItems":0,"minProperties":0,"enum":[0],"allOf":[{}],"xml":{"name":"","attribute":false,"wrapped":false},"additionalProperties":false}}}`)
 	if c.Shard == 0 {
 		for _, e := range extras {
 			exec(mustParse(e))
@@ -212,7 +237,7 @@ func init() {
 	register(&CheckDef{
 		ID: "C19", Build: "light", Run: c19Run, RunCase: c19RunCase,
 		Rule:        "states = the C01 state space embedded up to the Swagger root (cost <= bound at every route; one deeper for Swagger, response, parameter, operation, securityScheme, responses, items, header states through their first route), completed with referable definitions / parameters / responses so that in-document $refs resolve, de-duplicated, and FILTERED by an independent validator (python jsonschema Draft4Validator on the schemas/v2/schema.json of the working tree); for every valid document the re-encoding and the result of a successful ExpandSpec are validated by the same independent validator; non-trivial = document accepted by the validator",
-		Assumptions: []string{"python3-vt with jsonschema is the independent validity oracle; the shipped schema's references to the draft-04 meta-schema are served from schemas/jsonschema-draft-04.json", "only in-document references are generated here (multi-document expansion is C02's business)"},
+		Assumptions: []string{"python3-vt with jsonschema is the independent validity oracle; the shipped schema's references to the draft-04 meta-schema are served from schemas/jsonschema-draft-04.json", "besides in-document references, references into one external document (relative and canonical absolute spelling) are generated; multi-document expansion proper is C02's business"},
 		MinOutcomes: 2,
 	})
 }
